@@ -1465,7 +1465,9 @@ def deep_fp(x, depth=0):
         return ("deep",)
     if isinstance(x, Schema):
         reg = x.props._registry
-        return ("schema", type(x).__name__, id(x), id(reg), [(k, deep_fp(reg[k], depth + 1)) for k in reg])
+        extra = sorted((k, id(v)) for k, v in x.__dict__.items() if k != "_props") + \
+            sorted((k, id(v)) for k, v in x.props.__dict__.items() if k != "_registry")
+        return ("schema", type(x).__name__, id(x), id(reg), [(k, deep_fp(reg[k], depth + 1)) for k in reg], extra)
     if isinstance(x, (list, tuple)):
         return (type(x).__name__, id(x), [deep_fp(y, depth + 1) for y in x])
     if isinstance(x, dict):
@@ -1834,6 +1836,7 @@ MIG_OTHER = (
     "x = 1\n", "import os\n", "from os import path\n", "from . import sibling\n", "from district42 import *\n",
     "def f():\n    from district42 import schema\n    return schema\n", '"""doc"""\n', "# from district42 import schema\n",
     "if x:\n    y = 2\nelse:\n    y = 3\n", "from district42 import schema as s  # noqa\n", "z = (1,\n     2)\n", "from __future__ import annotations\n",
+    't = "\u0441\u0445\u0435\u043c\u0430 \u00e9"\n', "from .valera import validate\n", "from ..district42.errors import DeclarationError as DE\n",
 )
 
 
